@@ -54,7 +54,7 @@ def one_repo(run, g, seed, quick, cipher=None, cache=False):
         objs = dict(s.store.objs)
         names = sorted(n for n in objs if n.startswith(('data/', 'snapshots/')))
         if quick:
-            names = [n for n in names if n.startswith('snapshots/')] + r.sample([n for n in names if n.startswith('data/')], 4)
+            names = [n for n in names if n.startswith('snapshots/')] + (lambda ds: r.sample(ds, min(4, len(ds))))([n for n in names if n.startswith('data/')])
         count = 0
         for name in names:
             area = 'snap' if name.startswith('snapshots/') else 'chunk'
